@@ -5,44 +5,44 @@ C13 — the property's hypothesis as a decidable predicate on the two scripts.
 `sync` is the synchronisation skeleton of a call, written without reference to either transport:
 it follows who waits for whom and says `true` iff every send meets a ready receiver, the client asks
 for the header only when the handler has produced it or cannot be waiting for the client, asks for
-the trailer only after the handler returned, cancels only while the handler is blocked waiting (recv
+the trailer only after its RecvMsg returned the terminal status (`tm`), cancels only while the handler is blocked waiting (recv
 with nothing in flight, or `wait`), and both scripts run to their end.  `hdr` = header metadata is
 available to the client (SendHeader, first message, handler returned, or call aborted).
 -/
 namespace ScVerif.C13
 
-def sync : Bool → Bool → Srv → List COp → Bool
-  | hdr, cc, .running (.setHeader _ :: ss), cs => sync hdr cc (.running ss) cs
-  | _, cc, .running (.sendHeader _ :: ss), cs => sync true cc (.running ss) cs
-  | hdr, cc, .running (.setTrailer _ :: ss), cs => sync hdr cc (.running ss) cs
-  | _, cc, .running [], cs => sync true cc .done cs
-  | _, cc, .running (.send _ :: ss), .recv :: cs => sync true cc (.running ss) cs
-  | _, cc, .running (.send m :: ss), .header :: cs => sync true cc (.running (.send m :: ss)) cs
-  | _, false, .running (.send m :: ss), .closeSend :: cs => sync true true (.running (.send m :: ss)) cs
-  | _, _, .running (.send _ :: _), [] => false
-  | _, _, .running (.send _ :: _), _ :: _ => false
-  | hdr, true, .running (.recv :: ss), cs => sync hdr true (.running ss) cs
-  | hdr, false, .running (.recv :: ss), .send _ :: cs => sync hdr false (.running ss) cs
-  | hdr, false, .running (.recv :: ss), .closeSend :: cs => sync hdr true (.running (.recv :: ss)) cs
-  | hdr, false, .running (.recv :: ss), .header :: cs => hdr && sync hdr false (.running (.recv :: ss)) cs
-  | _, false, .running (.recv :: _), .abort _ :: cs => sync true false .aborted cs
-  | _, false, .running (.recv :: _), [] => false
-  | _, false, .running (.recv :: _), _ :: _ => false
-  | hdr, cc, .running (.wait :: ss), .header :: cs => hdr && sync hdr cc (.running (.wait :: ss)) cs
-  | hdr, false, .running (.wait :: ss), .closeSend :: cs => sync hdr true (.running (.wait :: ss)) cs
-  | _, cc, .running (.wait :: _), .abort _ :: cs => sync true cc .aborted cs
-  | _, _, .running (.wait :: _), [] => false
-  | _, _, .running (.wait :: _), _ :: _ => false
-  | _, _, .done, [] => true
-  | hdr, cc, .done, .recv :: cs => sync hdr cc .done cs
-  | hdr, cc, .done, .header :: cs => sync hdr cc .done cs
-  | hdr, cc, .done, .trailer :: cs => sync hdr cc .done cs
-  | hdr, false, .done, .closeSend :: cs => sync hdr true .done cs
-  | _, _, .done, _ :: _ => false
-  | _, _, .aborted, [] => true
-  | hdr, cc, .aborted, .recv :: cs => sync hdr cc .aborted cs
-  | _, _, .aborted, _ :: _ => false
-termination_by _ _ srv cs => srv.size + cs.length
+def sync : Bool → Bool → Bool → Srv → List COp → Bool
+  | tm, hdr, cc, .running (.setHeader _ :: ss), cs => sync tm hdr cc (.running ss) cs
+  | tm, _, cc, .running (.sendHeader _ :: ss), cs => sync tm true cc (.running ss) cs
+  | tm, hdr, cc, .running (.setTrailer _ :: ss), cs => sync tm hdr cc (.running ss) cs
+  | tm, _, cc, .running [], cs => sync tm true cc .done cs
+  | tm, _, cc, .running (.send _ :: ss), .recv :: cs => sync tm true cc (.running ss) cs
+  | tm, _, cc, .running (.send m :: ss), .header :: cs => sync tm true cc (.running (.send m :: ss)) cs
+  | tm, _, false, .running (.send m :: ss), .closeSend :: cs => sync tm true true (.running (.send m :: ss)) cs
+  | _, _, _, .running (.send _ :: _), [] => false
+  | _, _, _, .running (.send _ :: _), _ :: _ => false
+  | tm, hdr, true, .running (.recv :: ss), cs => sync tm hdr true (.running ss) cs
+  | tm, hdr, false, .running (.recv :: ss), .send _ :: cs => sync tm hdr false (.running ss) cs
+  | tm, hdr, false, .running (.recv :: ss), .closeSend :: cs => sync tm hdr true (.running (.recv :: ss)) cs
+  | tm, hdr, false, .running (.recv :: ss), .header :: cs => hdr && sync tm hdr false (.running (.recv :: ss)) cs
+  | tm, _, false, .running (.recv :: _), .abort _ :: cs => sync tm true false .aborted cs
+  | _, _, false, .running (.recv :: _), [] => false
+  | _, _, false, .running (.recv :: _), _ :: _ => false
+  | tm, hdr, cc, .running (.wait :: ss), .header :: cs => hdr && sync tm hdr cc (.running (.wait :: ss)) cs
+  | tm, hdr, false, .running (.wait :: ss), .closeSend :: cs => sync tm hdr true (.running (.wait :: ss)) cs
+  | tm, _, cc, .running (.wait :: _), .abort _ :: cs => sync tm true cc .aborted cs
+  | _, _, _, .running (.wait :: _), [] => false
+  | _, _, _, .running (.wait :: _), _ :: _ => false
+  | _, _, _, .done, [] => true
+  | _, hdr, cc, .done, .recv :: cs => sync true hdr cc .done cs
+  | tm, hdr, cc, .done, .header :: cs => sync tm hdr cc .done cs
+  | tm, hdr, cc, .done, .trailer :: cs => tm && sync tm hdr cc .done cs
+  | tm, hdr, false, .done, .closeSend :: cs => sync tm hdr true .done cs
+  | _, _, _, .done, _ :: _ => false
+  | _, _, _, .aborted, [] => true
+  | tm, hdr, cc, .aborted, .recv :: cs => sync tm hdr cc .aborted cs
+  | _, _, _, .aborted, _ :: _ => false
+termination_by _ _ _ srv cs => srv.size + cs.length
 decreasing_by all_goals (simp only [Srv.size, List.length_cons]; omega)
 
 def SOp.isSend : SOp → Bool | .send _ => true | _ => false
@@ -82,7 +82,7 @@ def conforms (shape : Shape) (ss : List SOp) (fin : Fin) (cs : List COp) : Bool 
 
 /-- The hypothesis of C13 for one scripted call. -/
 def WFScripts (shape : Shape) (ss : List SOp) (fin : Fin) (cs : List COp) : Bool :=
-  conforms shape ss fin cs && sync false false (.running ss) (clientOps shape cs)
+  conforms shape ss fin cs && sync false false false (.running ss) (clientOps shape cs)
 
 /-- A run is complete: it never left the rendezvous discipline and no handler is left blocked. -/
 def Transcript.complete (t : Transcript) : Bool :=
